@@ -425,7 +425,14 @@ def e2e(ctx, dist, items=None):
             if not H.same_line(exp, got):
                 mism.append({"where": "oracle", "class": "UNCLASSIFIED", "expr": c.sylt_expr(), "expected": exp, "real": got})
                 failures.append((c, (i, exp, got), None))
-    dist["e2e"] = {"programs": len(items) + len(fps), "observations": nobs, "containers": dict(cont), "operation_mix": dict(ops),
+    # containers created inside functions from literals: a new container per evaluation (shared with C10)
+    nact = 30 if ctx.tier == "quick" else 400
+    act_bad = H.check_activation_programs(ctx, nact, salt="c18-activation")
+    nobs += nact
+    for src, exp, got in act_bad[:3]:
+        mism.append({"where": "oracle", "class": "UNCLASSIFIED", "expected": exp[:12], "real": got[:12], "program": src[:1500]})
+    ctx.c18_activation = act_bad
+    dist["e2e"] = {"programs": len(items) + len(fps) + nact, "activation_container_programs": nact, "observations": nobs, "containers": dict(cont), "operation_mix": dict(ops),
                    "key_types": dict(keyt), "element_types": dict(elemt), "program_classes": dict(cls_n),
                    "helper_calls": dict(fmix), "accepted": sum(1 for r in runs if r["status"] == "OK"),
                    "known_finding_hits": dict(hits)}
@@ -481,6 +488,12 @@ def shrink_history(ctx, h, name):
 
 
 def search(ctx):
+    act = getattr(ctx, "c18_activation", None)
+    if act:
+        src, exp, got = act[0]
+        return {"class": "activation-containers", "files": {"/main.sy": src}, "expected": exp, "actual": got,
+                "what": "a container literal inside a function is not a new container for every evaluation",
+                "failing_inputs_found": len(act)}
     fails = getattr(ctx, "c18_failures", None)
     if not fails:
         if not _m.get("exe"):
